@@ -146,6 +146,26 @@ VP_ENTRY vp_main_owned_copy()
   vp_reach("owned-copy-end");
 }
 
+// --- OwnedArray: shrink, then copy or grow again (size()/contents consistent with the last operation)
+VP_ENTRY vp_main_owned_shrink()
+{
+  int src[NMAX];
+  for (int i = 0; i < NMAX; i++) src[i] = vp_nondet_int();
+  size_t n = vp_nondet_u64(), k = vp_nondet_u64(), m = vp_nondet_u64();
+  vp_assume(n >= 1 && n <= NMAX && k < n && m > k && m <= NMAX + 1);
+  OwnedArray<int> a(src, n);
+  a.resize(k, 0);                                   // shrink
+  vp_assert(a.size() == k, "size after shrinking");
+  OwnedArray<int> c(a);                             // a copy reports the same size and contents
+  vp_assert(c.size() == k, "copy of a shrunk array has the shrunk size");
+  for (size_t i = 0; i < k; i++) vp_assert(c[i] == src[i], "copy of a shrunk array keeps the remaining elements");
+  int val = vp_nondet_int();
+  a.resize(m, val);                                 // grow again: the new tail is filled with val
+  vp_assert(a.size() == m, "size after growing again");
+  for (size_t i = 0; i < m; i++) vp_assert(a[i] == (i < k ? src[i] : val), "growing after a shrink fills the new elements with the given value");
+  vp_reach("owned-shrink-end");
+}
+
 // --- FixedArray / FixedArrayView
 VP_ENTRY vp_main_fixed()
 {
